@@ -155,9 +155,9 @@ Proof.
     destruct (ts_poisoned ts); [split; [reflexivity|apply ssim_set; [exact Hs|apply Ewr]]|].
     set (start := if r_tail_bid r3 =? b_id w then r_tail_off r3 else 0).
     assert (Hpair : exists r4 (f : tstate -> tstate), (forall x y, tsim x y -> tsim (f x) (f y)) /\
-              (if ck && (start =? 0) then let '(r', p) := should_persist m r3 true in (r', if p then persist ts true (b_id w) start else ts) else (r3, ts)) = (r4, f ts) /\
-              (if ck && (start =? 0) then let '(r', p) := should_persist m r3 true in (r', if p then persist ts' true (b_id w) start else ts') else (r3, ts')) = (r4, f ts')).
-    { destruct (ck && (start =? 0)).
+              (if ck && (start =? 0) && (0 <? b_used w) then let '(r', p) := should_persist m r3 true in (r', if p then persist ts true (b_id w) start else ts) else (r3, ts)) = (r4, f ts) /\
+              (if ck && (start =? 0) && (0 <? b_used w) then let '(r', p) := should_persist m r3 true in (r', if p then persist ts' true (b_id w) start else ts') else (r3, ts')) = (r4, f ts')).
+    { destruct (ck && (start =? 0) && (0 <? b_used w)).
       - destruct (should_persist m r3 true) as [r' p]. destruct p.
         + exists r', (fun x => persist x true (b_id w) start). split; [intros; now apply Hpe|]. split; reflexivity.
         + exists r', (fun x => x). split; [auto|]. split; reflexivity.
